@@ -407,12 +407,29 @@ def main(argv):
     notes = []
 
     # 1-2. translator + Coq build (shared, locked)
+    # the shared libraries are (re)built under the exclusive lock; the property's own
+    # theorems compile under the shared lock so that checks of different properties overlap
     with Lock("coq.lock"):
         okc, clog = regen_consts()
         if not okc:
             notes.append(clog[-2000:])
         rc_make, mlog, failed = coq_build(pid)
-        pr = props(pid)
+    with Lock("coq.lock", shared=True):
+        with Lock("props-%s.lock" % pid):
+            pr = props(pid)
+            if not pr["compiled"] and ("inconsistent assumptions" in pr["log"] or "Cannot find" in pr["log"]):
+                pass_retry = True
+            else:
+                pass_retry = False
+        if pass_retry:
+            pr = None
+    if pr is None:
+        with Lock("coq.lock"):
+            coq_build(pid)
+        with Lock("coq.lock", shared=True):
+            with Lock("props-%s.lock" % pid):
+                pr = props(pid)
+    with Lock("coq.lock", shared=True):
         chk = coqchk(pid) if (tier == "thorough" and pr["compiled"] and not replay) else None
     gate_bad = gate(pid)
     theorems = pr["theorems"]
